@@ -25,6 +25,7 @@ import (
 	"encoding/binary"
 	"fmt"
 	"io"
+	"os"
 	"strings"
 	"testing"
 	"time"
@@ -161,6 +162,7 @@ type c05App struct {
 	abci.BaseApplication
 	ctl    *c05Ctl
 	keys   [][]byte // validator public keys that val-update transactions refer to
+	off    int64    // genesis initial_height - 1: the hash chain counts heights from the genesis state's position
 	height int64
 	acc    uint64
 	snaps  []c05Snap // newest first
@@ -214,7 +216,7 @@ func (a *c05App) BeginBlock(req abci.RequestBeginBlock) abci.ResponseBeginBlock 
 	a.ctl.effective(c05Begin)
 	h := req.Header.Height
 	a.j(vg.App("JBegin", vg.Z(h)), fmt.Sprintf("Begin(%d)", h))
-	a.work = (a.work*33 + uint64(h)) % c05PM
+	a.work = (a.work*33 + uint64(h-a.off)) % c05PM
 	a.cur = h
 	a.curVal = map[int]int64{}
 	a.curGas = 0
@@ -344,6 +346,7 @@ type c05Decided struct {
 }
 
 type c05Chain struct {
+	ih      int64 // genesis initial_height (1 except in the F87 family)
 	genDoc  *types.GenesisDoc
 	pvs     map[string]types.MockPV // by address
 	keys    [][]byte
@@ -355,7 +358,12 @@ type c05Chain struct {
 var c05GenesisTime = time.Unix(1600000000, 0).UTC()
 
 func c05NewChain(r *vg.Rand, nvals int, txs [][]uint64) *c05Chain {
-	c := &c05Chain{pvs: map[string]types.MockPV{}, txs: txs, decided: map[int64]*c05Decided{}, ref: map[int64][]byte{}}
+	return c05NewChainAt(r, nvals, txs, 1)
+}
+
+// txs[i] are the transactions of the block of height ih+i
+func c05NewChainAt(r *vg.Rand, nvals int, txs [][]uint64, ih int64) *c05Chain {
+	c := &c05Chain{ih: ih, pvs: map[string]types.MockPV{}, txs: txs, decided: map[int64]*c05Decided{}, ref: map[int64][]byte{}}
 	var gvals []types.GenesisValidator
 	for i := 0; i < nvals+1; i++ { // one spare key that val-update transactions can add
 		pv := types.NewMockPVWithParams(ed25519.GenPrivKeyFromSecret(r.Bytes(16)), false, false)
@@ -366,7 +374,7 @@ func c05NewChain(r *vg.Rand, nvals int, txs [][]uint64) *c05Chain {
 			gvals = append(gvals, types.GenesisValidator{PubKey: pk, Power: 10})
 		}
 	}
-	c.genDoc = &types.GenesisDoc{GenesisTime: c05GenesisTime, InitialHeight: 1, ChainID: "verif-c05", Validators: gvals}
+	c.genDoc = &types.GenesisDoc{GenesisTime: c05GenesisTime, InitialHeight: ih, ChainID: "verif-c05", Validators: gvals}
 	if err := c.genDoc.ValidateAndComplete(); err != nil {
 		panic(err)
 	}
@@ -394,7 +402,9 @@ type c05Node struct {
 
 func c05NewNode(chain *c05Chain) *c05Node {
 	ctl := &c05Ctl{eff: -1}
-	return &c05Node{chain: chain, ctl: ctl, blockDB: dbm.NewMemDB(), stateDB: dbm.NewMemDB(), app: c05NewApp(ctl, chain.keys)}
+	n := &c05Node{chain: chain, ctl: ctl, blockDB: dbm.NewMemDB(), stateDB: dbm.NewMemDB(), app: c05NewApp(ctl, chain.keys)}
+	n.app.off = chain.ih - 1
+	return n
 }
 
 func (n *c05Node) stores() (*store.BlockStore, sm.Store) {
@@ -446,7 +456,7 @@ func (n *c05Node) commit(h int64) error {
 			commit = cs.LastCommit.MakeCommit()
 		}
 		var txs []types.Tx
-		for _, t := range n.chain.txs[h-1] {
+		for _, t := range n.chain.txs[h-n.chain.ih] {
 			txs = append(txs, c05Tx(t))
 		}
 		block, parts := cs.state.MakeBlock(h, txs, commit, nil, cs.Validators.GetProposer().Address)
@@ -458,7 +468,7 @@ func (n *c05Node) commit(h int64) error {
 				continue
 			}
 			v := &types.Vote{Type: tmproto.PrecommitType, Height: h, Round: 0, BlockID: bid,
-				Timestamp: c05GenesisTime.Add(time.Duration(h) * time.Second), ValidatorAddress: val.Address, ValidatorIndex: int32(i)}
+				Timestamp: c05GenesisTime.Add(time.Duration(h-n.chain.ih+1) * time.Second), ValidatorAddress: val.Address, ValidatorIndex: int32(i)}
 			p := v.ToProto()
 			if err := pv.SignVote(n.chain.genDoc.ChainID, p); err != nil {
 				return err
@@ -549,7 +559,14 @@ func (n *c05Node) observe(outcome uint64, msg string) c05Obs {
 		o.appHash = int64(n.app.acc)
 	}
 	o.wal = append([]int64{}, n.walEnds...)
-	for h := int64(1); h <= o.storeH+1; h++ {
+	lo, hi := int64(1), o.storeH+1 // no responses can be saved below the initial height
+	if n.chain.ih > 1 {
+		lo = n.chain.ih - 1
+		if hi < n.chain.ih+1 {
+			hi = n.chain.ih + 1
+		}
+	}
+	for h := lo; h <= hi; h++ {
 		if _, err := ss.LoadLastABCIResponse(h); err == nil {
 			o.respH = h
 		}
@@ -594,11 +611,11 @@ func c05RunHistory(chain *c05Chain, ops []c05Op, isRef bool) (string, string, *c
 				continue
 			}
 			h := n.cs.Height
-			if int(h) > len(chain.txs) {
+			if h-chain.ih >= int64(len(chain.txs)) {
 				continue
 			}
-			term = vg.App("HCommit", c05NL(chain.txs[h-1]), c05Budget(op.eff))
-			hd = fmt.Sprintf("finalizeCommit(block %d, txs %v) budget eff=%d raw=%d", h, chain.txs[h-1], op.eff, op.raw)
+			term = vg.App("HCommit", c05NL(chain.txs[h-chain.ih]), c05Budget(op.eff))
+			hd = fmt.Sprintf("finalizeCommit(block %d, txs %v) budget eff=%d raw=%d", h, chain.txs[h-chain.ih], op.eff, op.raw)
 			oc, msg = n.guarded(op.eff, op.raw, func() error { return n.commit(h) })
 			if isRef && oc == 0 {
 				chain.ref[h] = n.cs.state.Bytes()
@@ -793,6 +810,83 @@ func TestVerifC05Pipeline(t *testing.T) {
 				ops = append(ops, c05Op{kind: 1, eff: -1})
 			}
 			add(chain, "random", append(ops, c05Finish(nblocks)...))
+		}
+	}
+	if err := cs.Write(); err != nil {
+		t.Fatal(err)
+	}
+}
+
+// ---------------------------------------------------------------- finding F87: initial_height > 1
+
+// c05F87: generate the histories on chains whose genesis initial_height is > 1 (finding F87: a
+// crash between SaveBlock and the state Save of the FIRST block leaves store = initial_height,
+// state = 0 and ReplayBlocks panics "StoreBlockHeight > StateBlockHeight + 1" on every restart).
+// REMOVE THIS GATE (return true) once fixes/F87-replay-genesis-state-below-initial-height.diff
+// is applied to the repository.
+func c05F87() bool { return os.Getenv("VERIF_C05_F87") == "1" }
+
+// The crash-at-every-persistence-operation family of part A on chains with initial_height in
+// {2, 10, 2^40}, first two blocks: real Handshaker, stores, executor, finalizeCommit as above.
+// The case carries the REAL heights; coq/C05/Exec.v (CRunAt) counts them from the genesis
+// state's position initial_height-1 before it runs the monitors and the model.
+func TestVerifC05InitialHeight(t *testing.T) {
+	if !c05F87() {
+		return
+	}
+	cs := vg.NewCases("C05", "c05_initial_height", "TM.C05.Exec")
+	root := vg.NewRand(vg.Seed()).Fork(87)
+	for ci, ih := range []int64{2, 10, 1 << 40} {
+		r := root.Fork(uint64(ci))
+		txs := [][]uint64{{5, 1<<32 | 4<<8 | 7, 11}, {2<<32 | 99, 77}}
+		if ci > 0 {
+			txs = c05GenTxs(r, 2, 5)
+		}
+		chain := c05NewChainAt(r, 4, txs, ih)
+		nblocks := len(txs)
+		add := func(kind string, ops []c05Op) {
+			id := cs.NextID()
+			if !cs.Want(id) {
+				return
+			}
+			terms, human, n := c05RunHistory(chain, ops, false)
+			nontrivial := strings.Count(strings.Join(n.app.jr, " "), "JCrash") > 0
+			cs.Add(id, kind, nontrivial,
+				vg.App("CRunAt", vg.Z(ih), c05ChainTerm(chain), terms, vg.L(n.app.jr)),
+				fmt.Sprintf("genesis initial_height = %d; chain txs of heights %d.. : %v (tx>>32: 1 = validator update key (tx>>8)&255 power tx&255, 2 = max gas)\n  %s\n  application journal: %s",
+					ih, ih, chain.txs, human, strings.Join(n.app.jh, " ")))
+		}
+		c05Reference(chain)
+		if len(chain.decided) != nblocks {
+			t.Fatalf("C05 harness (initial_height %d): the crash-free reference run committed %d of %d blocks", ih, len(chain.decided), nblocks)
+		}
+		add("ih-crash-free", c05Finish(nblocks))
+		steps := func(i int) int { return 7 + len(chain.txs[i]) } // persistence operations of block ih+i
+		for e := 0; e <= 2; e++ {
+			add("ih-crash-first-handshake", append([]c05Op{{kind: 1, eff: e}}, c05Finish(nblocks)...))
+		}
+		for i := 0; i < nblocks; i++ {
+			for e := 0; e <= steps(i); e++ {
+				ops := append(c05Finish(i), c05Op{kind: 0, eff: e})
+				add("ih-single-crash", append(ops, c05Finish(nblocks)...))
+				// ... and the application comes back empty (its commit 0)
+				ops = append(c05Finish(i), c05Op{kind: 0, eff: e}, c05Op{kind: 3, k: 0})
+				add("ih-single-crash-app-empty", append(ops, c05Finish(nblocks)...))
+			}
+		}
+		for raw := 1; raw <= 5; raw++ { // inside SaveBlock of the first block
+			ops := append(c05Finish(0), c05Op{kind: 0, eff: 0, raw: raw})
+			add("ih-single-crash-raw-write", append(ops, c05Finish(nblocks)...))
+		}
+		for k := 0; k < vg.Scale(12, 120); k++ { // crash, then crash again during the recovery
+			rr := r.Fork(uint64(1000 + k))
+			i := rr.Intn(nblocks)
+			ops := append(c05Finish(i), c05Op{kind: 0, eff: rr.Intn(steps(i) + 1)})
+			ops = append(ops, c05Op{kind: 1, eff: rr.Intn(8 + len(chain.txs[i])), raw: rr.Intn(3)})
+			if rr.Chance(30) {
+				ops = append(ops, c05Op{kind: 1, eff: rr.Intn(8)})
+			}
+			add("ih-crash-during-recovery", append(ops, c05Finish(nblocks)...))
 		}
 	}
 	if err := cs.Write(); err != nil {
